@@ -40,9 +40,10 @@ class Unprojectable(Exception):
 
 
 class LabelCodec(object):
-    def __init__(self, mixed=False, offset=0):
+    def __init__(self, mixed=False, offset=0, smin=None):
         self.mixed = mixed
         self.offset = offset      # shifts numeric labels so that a label can be 0 / negative (falsy labels)
+        self.smin = smin          # str kind: this (smallest) abstract label is the empty string (falsy str label)
 
     def enc(self, h, kind):
         if kind in "if":
@@ -55,6 +56,8 @@ class LabelCodec(object):
         if kind == "f":
             return h * 0.5
         if kind == "s":
+            if self.smin is not None and h == self.smin:
+                return ""
             return "k%04d" % (h + 5000)
         if kind == "n":
             return None
@@ -72,6 +75,8 @@ class LabelCodec(object):
         if x is None:
             return 0, "n"
         if isinstance(x, (str, np.str_)):
+            if x == "" and self.smin is not None:
+                return self.smin, "s"
             if len(x) == 5 and x[0] == "k" and x[1:].isdigit():
                 return int(x[1:]) - 5000, "s"
             raise Unprojectable("label %r" % (x,))
@@ -198,6 +203,19 @@ def attrs_dec(d):
 
 
 # ---------------------------------------------------------------- gamma / project
+# Concretisation is one-to-many: besides the label kind and offset, an abstract array stands for objects with or without
+# warmed caches (C05: "no stale cached state").  engine.py sets WARM per scenario (every other scenario of a job); a warm
+# array has answered the public query is_monotonic() on every axis, which fills Axis._monotonic, before the operation runs.
+WARM = False
+
+
+def warm(arr):
+    for ax in arr.axes:
+        if hasattr(ax, "is_monotonic"):
+            ax.is_monotonic()
+    return arr
+
+
 def gamma(a, codec=None, kinds=None):
     """abstract array (dict) -> DimArray.  kinds overrides a['kinds'] (replay variants)."""
     codec = codec or LabelCodec()
@@ -215,6 +233,8 @@ def gamma(a, codec=None, kinds=None):
         axes.append(ax)
     arr = DimArray(vals, axes=axes)
     arr.attrs.update(attrs_enc(a["attrs"]))
+    if WARM:
+        warm(arr)
     return arr
 
 
